@@ -184,6 +184,8 @@ package hermes
 // lo/hi: envelope of the temperatures present before the call (ghost); s: the surface value imposed today.
 //@ func Soiltemp
 //@   serves C19
+// finiteness of the soil temperatures (C06: no NaN/Inf in any state variable) is Soiltemp's division/domain safety
+//@   serves C06 as C19
 //@   ghost var lo real
 //@   ghost var hi real
 //@   define s() = g.TSOIL[1][0]
@@ -590,14 +592,16 @@ package hermes
 // C02 / C07  mineralisation of one day: what leaves the organic pools is what the source term and the counters gain
 // n2o(z): nitrification N2O loss of layer z (defined by the source term identity).
 //@ func mineral
-//@   serves C02, C07
+//@   serves C02, C07, C06
+//@   safety[C06] div
 //@   define num() = tdiv(g.IZM, g.DZ.Index)
 //@   define dnaos(z) = old(g.NAOS[z]) - g.NAOS[z]
 //@   define dnfos(z) = old(g.NFOS[z]) - g.NFOS[z]
 //@   define n2o(z) = dnaos(z) + dnfos(z) + l.DUMS[z] - g.DN[z]
 //@   requires depth: g.DZ.Index == 10 && 10 <= g.IZM && g.IZM <= 40
-//@   requires[C07] soil: g.WMIN[0] < g.WRED && g.WRED <= g.W[0] && forall(k, 0, 4, 0 < g.WMIN[k] && g.WMIN[k] < g.WNOR[k] && g.WNOR[k] <= g.W[k] && g.W[k] <= g.PORGES[k] && g.WNOR[k] < g.PORGES[k])
+//@   requires[C07,C06] soil: g.WMIN[0] < g.WRED && g.WRED <= g.W[0] && forall(k, 0, 4, 0 < g.WMIN[k] && g.WMIN[k] < g.WNOR[k] && g.WNOR[k] <= g.W[k] && g.W[k] <= g.PORGES[k] && g.WNOR[k] < g.PORGES[k])
 //@   requires[C07] temp: forall(k, 0, 5, g.TD[k] <= 45)
+//@   requires[C06] water: forall(k, 0, 4, 0 <= g.WG[0][k] && g.WG[0][k] <= g.PORGES[k]) && forall(k, 0, 5, g.TD[k] > 0-273)
 //@   requires[C07] pools: forall(k, 0, 4, g.NAOS[k] >= 0 && g.NFOS[k] >= 0)
 //@   requires[C07] fert: g.UMS <= g.DSUMM && g.NH4UMS <= g.NH4Sum
 //@   ensures[C02,C07] slow: forall(z, 0, num(), g.NAOS[z] + g.MINAOS[z] == old(g.NAOS[z]) + old(g.MINAOS[z]))
@@ -622,7 +626,8 @@ package hermes
 // ---------------------------------------------------------------------------
 // C02 / C07  denitrification: what the top layers lose is what the cumulative counter gains (the clamp never engages)
 //@ func Denitr
-//@   serves C02, C07
+//@   serves C02, C07, C06
+//@   safety[C06] div
 //@   requires nitrate: g.C1[0] >= 0 && g.C1[1] >= 0 && g.C1[2] >= 0
 //@   requires water: g.WG[1][0] >= 0 && g.WG[1][1] >= 0 && g.WG[1][2] >= 0
 //@   requires pores: g.PORGES[0] + g.PORGES[1] + g.PORGES[2] > 0
@@ -638,7 +643,8 @@ package hermes
 //@   unroll 3
 
 //@ func Denitmo
-//@   serves C02, C07
+//@   serves C02, C07, C06
+//@   safety[C06] div
 //@   requires nitrate: forall(k, 0, 9, g.C1[k] >= 0)
 //@   requires water: forall(k, 0, 9, g.WG[1][k] >= 0)
 //@   requires pores: g.PORGES[0] + g.PORGES[1] + g.PORGES[2] > 0 && g.PORGES[3] + g.PORGES[4] + g.PORGES[5] > 0 && g.PORGES[6] + g.PORGES[7] + g.PORGES[8] > 0
